@@ -13,9 +13,11 @@ var families = map[string]func(*Runner){
 	"concurrent": FamilyConcurrent,
 	"subtree":    FamilySubtree,
 	"mirror":     FamilyMirror,
+	"mirror2":    FamilyMirror2,
+	"subtree2":   FamilySubtree2,
 }
 
-var familyOrder = []string{"requests", "faults", "concurrent", "subtree", "mirror"}
+var familyOrder = []string{"requests", "faults", "concurrent", "subtree", "mirror", "mirror2", "subtree2"}
 
 func TestMain(m *testing.M) {
 	debug.SetGCPercent(400)
